@@ -184,9 +184,18 @@ func ZZ_C17_Ensure() {
 	s, L := zzC17Sketch(0)
 	size := vfUint("size")
 	vfAssume(size <= 1<<24)
+	gi0 := vfUint("gi0")
+	vfAssume(gi0 < uint(L))
+	w0 := s.Table[gi0]
+	a0 := s.Additions
 	s.EnsureCapacity(size)
 	vfReach("after-ensure")
 	L1 := len(s.Table)
+	if L1 == L {
+		// no growth: the counts recorded so far are untouched
+		vfAssert("no-growth-keeps-counters", s.Table[gi0] == w0 && s.Additions == a0)
+	}
+	vfAssert("grows-only-when-needed", vfImplies(uint(L) >= size, L1 == L))
 	vfAssert("never-shrinks", L1 >= L)
 	vfAssert("large-enough", L1 >= int(size))
 	vfAssert("power-of-two", L1&(L1-1) == 0)
